@@ -166,6 +166,8 @@ def _env_of(interp, frame, extra):
 
 
 def _havoc(interp, frame, spec, modified_names, tag):
+    """returns the set of (id(object), attribute) pairs of the object fields declared in `modifies`"""
+    declared_fields = set()
     from .api import MListOf as _MListOf
     for name in modified_names:
         ty = spec.modifies.get(name)
@@ -257,6 +259,9 @@ def _havoc(interp, frame, spec, modified_names, tag):
                     obj = interp.getattr(obj, a) if obj is not None else None
             if obj is None or not models.havoc_mutable(interp, obj, '%s@%s' % (name, tag)):
                 raise Unsupported('modifies entry %r (in-place): nothing to havoc' % name)
+            if isinstance(obj, (SOpt, SChoice)):
+                obj = interp.resolve(obj)
+            declared_fields.add((id(obj), '*'))      # every field of an object declared in-place may be stored to
             continue
         if name == 'yielded':
             continue
@@ -281,6 +286,9 @@ def _havoc(interp, frame, spec, modified_names, tag):
                 for a in parts[1:-1]:
                     obj = interp.getattr(obj, a)
                 attr = parts[-1]
+                if isinstance(obj, (SOpt, SChoice)):
+                    obj = interp.resolve(obj)
+                declared_fields.add((id(obj), attr))
                 if isinstance(ty, MListOf):
                     cur = interp.getattr(obj, attr)
                     if isinstance(cur, list):
@@ -295,6 +303,7 @@ def _havoc(interp, frame, spec, modified_names, tag):
                 interp.setattr(obj, attr, ty.make(interp, '%s@%s' % (name, tag)))
             else:
                 frame.locals[name] = ty.make(interp, '%s@%s' % (name, tag))
+    return declared_fields
 
 
 def _iter_positions(frame, exempt):
@@ -347,7 +356,9 @@ def exec_while(interp, node, frame):
     inv0 = interp.truth(_call_pred(interp, spec.invariant, _env_of(interp, frame, {})))
     _oblige_conjuncts(st, label + ' invariant[entry]', inv0, {'kind': 'loop-entry'})
     which = st.choose(2)
-    _havoc(interp, frame, spec, modified, 'L%s' % ordinal)
+    declared_fields = _havoc(interp, frame, spec, modified, 'L%s' % ordinal)
+    from . import strings as _strings
+    _strings.forget_dead_pieces(interp)
     inv = interp.truth(_call_pred(interp, spec.invariant, _env_of(interp, frame, {})))
     st.assume(inv)
     guard = interp.eval(node.test, frame)
@@ -359,7 +370,11 @@ def exec_while(interp, node, frame):
         if spec.decreases is not None:
             dec0 = _call_pred(interp, spec.decreases, _env_of(interp, frame, {}))
         its = _iter_positions(frame, None)
-        r = interp.exec_block(node.body, frame)
+        interp.loop_frame_stack.append({'declared': declared_fields, 'born': set(), 'loop': label})
+        try:
+            r = interp.exec_block(node.body, frame)
+        finally:
+            interp.loop_frame_stack.pop()
         _check_iterators_unchanged(spec, its, frame, None)
         if r is not None and r[0] not in ('continue',):
             if r[0] == 'break':
@@ -479,7 +494,9 @@ def _for_symbolic(interp, node, frame, src):
     _oblige_conjuncts(st, label + ' invariant[entry]', inv0, {'kind': 'loop-entry'})
     which = st.choose(2)
     tag = 'L%s' % ordinal
-    _havoc(interp, frame, spec, modified, tag)
+    declared_fields = _havoc(interp, frame, spec, modified, tag)
+    from . import strings as _strings
+    _strings.forget_dead_pieces(interp)
     if which == 0:
         i = st.fresh_int('_i@' + tag)
         st.assume(z3.And(i >= start, i < n))
@@ -495,10 +512,12 @@ def _for_symbolic(interp, node, frame, src):
         interp.assign(node.target, x, frame)
         its = _iter_positions(frame, it_cell)
         interp.loop_index_stack.append(i)
+        interp.loop_frame_stack.append({'declared': declared_fields, 'born': set(), 'loop': label})
         try:
             r = interp.exec_block(node.body, frame)
         finally:
             interp.loop_index_stack.pop()
+            interp.loop_frame_stack.pop()
         _check_iterators_unchanged(spec, its, frame, it_cell)
         if r is not None and r[0] != 'continue':
             if it_cell is not None and it_cell.eager:
